@@ -14,7 +14,9 @@ META = {
         "value untouched, behaviour resumes from it); 0-3 explicit re-activations at random points, "
         "1-3 re-constructions over the same model after arbitrary histories (restart), sync/async "
         "(activation before the first event or on explicit activate), rtc on/off, events before/after "
-        "explicit activation. distinct_nontrivial = distinct (stored state | start | empty, restart count, "
+        "explicit activation. "
+        "8% of the models are class Row(MachineMixin, Record) whose Record.__init__ receives the stored state. "
+        "distinct_nontrivial = distinct (stored state | start | empty, restart count, "
         "re-activations, engine, rtc, driver) combinations."
     ),
     "assumptions": ["40% of the machines use typed / falsy state values (C10's value generator), the rest the default ids"],
